@@ -112,7 +112,9 @@ FarActive(st) == Height > st
 \* (parametrised by the particle sequences so that the trace specification can evaluate it for a recorded occupancy)
 ElementaryFor(sp, tp, st) ==
   LET so == SeqToSet(sp)  to == SeqToSet(tp)
-      sc(l) == CellsOf(so, l)  tc(l) == CellsOf(to, l)
+      \* (functions, not operators: TLC caches the value of a zero-arity LET definition, an operator would be re-evaluated at every use)
+      scT == [l \in Levels |-> CellsOf(so, l)]  tcT == [l \in Levels |-> CellsOf(to, l)]
+      sc(l) == scT[l]  tc(l) == tcT[l]
       p2m == IF FarActive(st) THEN { <<"P2M", m>> : m \in so } ELSE {}
       l2p == IF FarActive(st) THEN { <<"L2P", m>> : m \in to } ELSE {}
       m2m == UNION { { <<"M2M", l, Par(c), c, ChildCode(c)>> : c \in sc(l+1) } : l \in st..(LeafLevel-1) }
@@ -133,6 +135,21 @@ Guard(e, P) == CASE e[1] = "M2M" -> IntoMp(P, e[2] + 1, e[4]) = {}
                  [] e[1] = "L2L" -> IntoLo(P, e[2], e[3]) = {}
                  [] e[1] = "L2P" -> IntoLo(P, LeafLevel, e[2]) = {}
                  [] OTHER -> TRUE
+
+(* The same guard by membership tests on the only elements that can flow   *)
+(* into the expansion (P is always a subset of an Elementary set, whose    *)
+(* elements have the shapes above): logarithmic instead of linear in P.    *)
+(* Used by the trace specification on large recorded executions; the       *)
+(* model-checking runs check that it agrees with Guard (Call).             *)
+MpOpen(P, l, c) == \/ (l = LeafLevel /\ <<"P2M", c>> \in P)
+                   \/ (l < LeafLevel /\ \E j \in 0..(Pow2(Dim)-1) : <<"M2M", l, c, c * Pow2(Dim) + j, j>> \in P)
+LoOpen(P, l, c) == \/ \E x \in ILTab[l][c] : <<"M2L", l, c, x[1], x[2]>> \in P
+                   \/ (l > 0 /\ <<"L2L", l - 1, Par(c), c, ChildCode(c)>> \in P)
+GuardFast(e, P) == CASE e[1] = "M2M" -> ~MpOpen(P, e[2] + 1, e[4])
+                     [] e[1] = "M2L" -> ~MpOpen(P, e[2], e[4])
+                     [] e[1] = "L2L" -> ~LoOpen(P, e[2], e[3])
+                     [] e[1] = "L2P" -> ~LoOpen(P, LeafLevel, e[2])
+                     [] OTHER -> TRUE
 
 (***************************************************************************)
 (* Effects of a batch of elementary interactions on (mp, lo, rhs): the     *)
@@ -395,6 +412,7 @@ Call ==
          \* refinement of L1: every member pending, guards hold w.r.t. what is still pending after removing the batch's own M2M/L2L of other targets
          refines == B \subseteq pending /\ \A e \in B : Guard(e, pending \ B)
      IN /\ bad' = IF a # "" THEN a
+                  ELSE IF \E e \in B : Guard(e, pending \ B) # GuardFast(e, pending \ B) THEN "specification: Guard and GuardFast disagree"
                   ELSE IF ~refines THEN "wrapper call " \o c.op \o " is not an enabled batch of the dataflow specification"
                   ELSE ""
         /\ mp' = MpAfter(mp, B) /\ lo' = LoAfter(lo, mp, B) /\ rhs' = RhsAfter(rhs, lo, B)
